@@ -893,8 +893,8 @@ package sse
 //@   ensures becomes_retry: c.isRetry && connok(c)
 //@   ensures validator_sees_the_response_of_the_request: forall(x, old(ncalls()), ncalls(), iscall(x, "ResponseValidator") ==> forall(y, x+1, ncalls(), !isdo(y)))
 //@   ensures no_retry_bookkeeping_inside: forall(x, old(ncalls()), ncalls(), !iscall(x, "OnRetry") && !iscall(x, "TimerReset"))
-//@   ensures request_error_is_judged_against_the_context_afterwards: (exists(x, old(ncalls()), ncalls(), isdo(x) && cret(x, "Do", 1) != nil)) ==> lastctxerr() == ncalls()
-//@   ensures read_outcome_is_judged_against_the_context_afterwards: (exists(x, old(ncalls()), ncalls(), iscall(x, "ResponseValidator") && cret(x, "ResponseValidator", 0) == nil)) ==> lastctxerr() == ncalls() - 1 && iscall(ncalls() - 1, "Close")
+//@   ensures request_error_is_judged_against_the_context_afterwards: forall(x, old(ncalls()), ncalls(), isdo(x) && cret(x, "Do", 1) != nil ==> lastctxerr() == ncalls())
+//@   ensures read_outcome_is_judged_against_the_context_afterwards: forall(x, old(ncalls()), ncalls(), iscall(x, "ResponseValidator") && cret(x, "ResponseValidator", 0) == nil ==> lastctxerr() == ncalls() - 1 && iscall(ncalls() - 1, "Close"))
 
 //@ func Backoff.new
 //@   requires b != nil
